@@ -17,7 +17,20 @@ EXTENDS Naturals, Sequences, TLC, Json, IOUtils
 TraceLog == ndJsonDeserialize(IOEnv.TRACE)
 NLines   == Len(TraceLog)
 
-G(pid, clause, cond) == cond \/ (TLCSet(1, <<pid, clause>>) /\ FALSE)
+\* The property whose check is running (environment variable OWN; unset = none).  A trace specification shared by
+\* several properties (SlabTrace: C01-C05, RBTreeTrace: C06/C07) must not let a clause of ANOTHER property that fails
+\* first hide a failing clause of the running one: with OWN set, a failing foreign clause is remembered and evaluation
+\* goes on; the event is rejected either way, but it is attributed to the running property if one of ITS clauses fails
+\* on the same event, and to the first failing foreign clause otherwise.  Such a specification wraps its acceptance
+\* test in Judged(...).  GD is for clauses that later clauses depend on (legality of the driver's own call, domain
+\* membership): it always stops the evaluation.  With OWN unset G behaves like GD.
+Own == IF "OWN" \in DOMAIN IOEnv THEN IOEnv.OWN ELSE ""
+GD(pid, clause, cond) == cond \/ (TLCSet(1, <<pid, clause>>) /\ FALSE)
+G(pid, clause, cond) ==
+  IF cond THEN TRUE
+  ELSE IF Own = "" \/ pid = Own THEN TLCSet(1, <<pid, clause>>) /\ FALSE
+  ELSE (IF TLCGet(2) = <<>> THEN TLCSet(2, <<pid, clause>>) ELSE TRUE)
+Judged(acc) == TLCSet(2, <<>>) /\ acc /\ (TLCGet(2) = <<>> \/ (TLCSet(1, TLCGet(2)) /\ FALSE))
 
 Has(ev, f) == f \in DOMAIN ev
 
@@ -27,7 +40,7 @@ ResetLines == {i \in 1..NLines : TraceLog[i].e = "Reset"}
 NextResetFrom(j) == LET later == {i \in ResetLines : i >= j} IN
                     IF later = {} THEN NLines + 1 ELSE CHOOSE i \in later : \A k \in later : i <= k
 
-InitDiag == TLCSet(1, <<"?", "?">>)
+InitDiag == TLCSet(1, <<"?", "?">>) /\ TLCSet(2, <<>>)
 
 ReportReject(line) == PrintT(<<"REJECT", line, TLCGet(1)[1], TLCGet(1)[2]>>)
 ReportDone(nchk)   == PrintT(<<"DONE", NLines, nchk>>)
